@@ -2,6 +2,8 @@ import GrolProofs.ParseNoPanic
 import GrolProofs.PrintNoPanic
 import GrolProofs.StreamWF
 import GrolProofs.ParseGood
+import GrolProofs.ParseTerm
+import GrolProofs.LexStreamEnd
 /-
 C08 — the front end is total on arbitrary bytes (parser and printer halves; the lexer half and
 the composition `bytes → TokStream` belong to the lexer component).
@@ -17,9 +19,12 @@ Proved here, for the Lean model of parser/parser.go and of the PrettyPrint metho
                                  has no missing child and every operator token has a precedence;
   * `C08.front_end_total`       the three combined, `C08.StatementAt` for every well-formed stream and fuel
                                  (no `Safe` hypothesis left).
-Not proved (validated by the correspondence run only): termination within a linear fuel bound, i.e. the
-`∃ fuel, parseProgram s fuel ≠ outOfFuel` clause of `C08.Statement` (the driver's `defaultFuel` was
-never exhausted on any case).
+  * `C08.terminates`            when the repeated end marker is EOF or EOL (`EndOK`), fuel ≥ 7·(tokens + 2) is never
+                                 exhausted (`GrolProofs/ParseTerm.lean`);
+  * `C08.statement`             `C08.Statement`: all of the above; `C08.statement_lexer` instantiates it with the
+                                 token stream of the lexer MODEL, for which `StreamWF` and `EndOK` are theorems.
+Nothing of the parser/printer half is left unproved.  (The bound 7·(n+2) is sufficient, not tight: the driver
+runs with 4·n + 64, which was never exhausted on any case.)
 -/
 namespace Grol.C08
 open Grol Grol.Parser Grol.Printer Grol.Generated
@@ -31,9 +36,14 @@ def StatementAt (tbl : Nat → Bool) (s : TokStream) (fuel : Nat) : Prop :=
      noNilL r.program = true ∧
      ∀ compact allParens e, printProgram tbl r.program compact allParens ≠ .error e)
 
-/-- the full statement: every well-formed stream, every fuel; and some fuel suffices -/
+/-- the repeated end marker of the stream is EOF or EOL (third lexer fact; without it — an end marker that is,
+say, a comma — the Go parser itself would loop for ever) -/
+def EndOK (s : TokStream) : Prop := s.eof.type = .EOF ∨ s.eof.type = .EOL
+
+/-- the full statement: every well-formed stream, every fuel; and a fuel LINEAR in the number of tokens suffices -/
 def Statement : Prop :=
-  ∀ tbl s, StreamWF s → (∀ fuel, StatementAt tbl s fuel) ∧ ∃ fuel, parseProgram s fuel ≠ .outOfFuel
+  ∀ tbl s, StreamWF s → EndOK s →
+    (∀ fuel, StatementAt tbl s fuel) ∧ ∀ fuel, 7 * (s.toks.length + 2) ≤ fuel → parseProgram s fuel ≠ .outOfFuel
 
 /-- what is assumed about the parser's own output (decidable; evaluated on every case by the driver) -/
 def Safe (s : TokStream) (fuel : Nat) : Bool :=
@@ -89,6 +99,31 @@ missing child and prints without panic in all four modes. -/
 theorem front_end_total (tbl : Nat → Bool) (s : TokStream) (hwf : StreamWF s) (fuel : Nat) : StatementAt tbl s fuel :=
   «partial» tbl s hwf fuel (safe_always s fuel)
 
+/-- **C08, termination clause** with an explicit linear bound: 7 units of fuel (= call depth of the model) per
+token; no hypothesis other than the end marker being EOF or EOL -/
+theorem terminates (s : TokStream) (he : EndOK s) (fuel : Nat) (hf : 7 * (s.toks.length + 2) ≤ fuel) :
+    parseProgram s fuel ≠ .outOfFuel :=
+  parseProgram_terminates s he fuel hf
+
+/-- **C08 for the parser and the printer**: the full statement -/
+theorem statement : Statement :=
+  fun tbl s hwf he => ⟨fun fuel => front_end_total tbl s hwf fuel, fun fuel hf => terminates s he fuel hf⟩
+
+/-- with enough fuel the parser returns a result: it neither panics nor runs out of fuel -/
+theorem parse_returns (s : TokStream) (hwf : StreamWF s) (he : EndOK s) :
+    ∃ r, parseProgram s (7 * (s.toks.length + 2)) = .ok r := by
+  cases h : parseProgram s (7 * (s.toks.length + 2)) with
+  | ok r => exact ⟨r, rfl⟩
+  | goPanic p => exact absurd h (parser_never_panics s hwf _ p)
+  | outOfFuel => exact absurd h (terminates s he _ (Nat.le_refl _))
+
+/-- corollary for the streams of the LEXER MODEL (`LexStream.tokStream`, every input, both modes, any
+classification of number literals): both stream hypotheses are theorems there -/
+theorem statement_lexer (tbl : Nat → Bool) (nc : Grol.Token.Tok → NumClass) (input : Array UInt8) (lineMode : Bool) :
+    let s := LexStream.tokStream nc input lineMode
+    (∀ fuel, StatementAt tbl s fuel) ∧ ∀ fuel, 7 * (s.toks.length + 2) ≤ fuel → parseProgram s fuel ≠ .outOfFuel :=
+  statement tbl _ (LexStream.lexer_streamWF nc input lineMode) (LexStream.tokStream_eof nc input lineMode)
+
 /-! ### non-vacuity: a concrete stream (`a - (b - c)`) is well-formed, safe, and parses to a tree -/
 
 def exampleStream : TokStream :=
@@ -102,5 +137,10 @@ example : StreamWF exampleStream := streamWF_of_b (by decide)
 example : Safe exampleStream 20 = true := by decide
 example : (match parseProgram exampleStream 20 with | .ok r => r.program.length | _ => 0) = 1 := by decide
 example : StatementAt isPrintTable exampleStream 20 := «partial» _ _ (streamWF_of_b (by decide)) _ (by decide)
+example : EndOK exampleStream := Or.inl rfl
+example : parseProgram exampleStream (7 * (exampleStream.toks.length + 2)) ≠ .outOfFuel :=
+  terminates _ (Or.inl rfl) _ (Nat.le_refl _)
+/-- the bound is not vacuous the other way either: with too little fuel the model does run out -/
+example : (match parseProgram exampleStream 3 with | .outOfFuel => true | _ => false) = true := by decide
 
 end Grol.C08
